@@ -167,7 +167,7 @@ func genTimeline(t *rapid.T, label string, maxDur int) timeline {
 	tl := timeline{
 		IntervalS: rapid.SampledFrom([]int{1, 1, 1, 2}).Draw(t, label+"interval"),
 		DurMS:     rapid.IntRange(2200, maxDur).Draw(t, label+"dur"),
-		Name:      rapid.SampledFrom([]string{"roll.log", "r", "a.b"}).Draw(t, label+"name"),
+		Name:      rapid.SampledFrom([]string{"roll.log", "app1.log", "r", "node05.log", "a.b", "w2006-01-02.log", "Jan_PM.MST"}).Draw(t, label+"name"),
 	}
 	nw := rapid.SampledFrom([]int{1, 1, 2, 3, 4, 8, 16}).Draw(t, label+"writers")
 	if rapid.IntRange(0, 3).Draw(t, label+"late2s") == 0 {
